@@ -355,13 +355,17 @@ where
         // Now we have an Arc::clone of the mutex for this key, and the global mutex is already unlocked so other threads can access the cache.
         // The following blocks the task until the mutex for this key is acquired.
 
-        let guard = match mutex {
-            LoadOrInsertMutexResult::Existing { mutex } => mutex.lock_owned().await,
-            LoadOrInsertMutexResult::Inserted { guard } => guard,
-        };
-
-        // To fulfill invariant 2C, we immediately put the [ReplicaOwnedMutexGuard] into a [Guard] object.
-        Ok(Self::_make_guard(this, key, guard))
+        match mutex {
+            LoadOrInsertMutexResult::Existing { mutex } => {
+                // This future can be dropped while it is waiting for the mutex. To fulfill invariant 2C in that case
+                // as well, the [ReplicaArc] is held by a [PendingLock] while we're waiting.
+                Ok(PendingLock::new(this, key, mutex.lock_owned()).lock().await)
+            }
+            LoadOrInsertMutexResult::Inserted { guard } => {
+                // To fulfill invariant 2C, we immediately put the [ReplicaOwnedMutexGuard] into a [Guard] object.
+                Ok(Self::_make_guard(this, key, guard))
+            }
+        }
     }
 
     #[inline]
@@ -502,12 +506,12 @@ where
                 //              so that invariant 2A is fulfilled (refcount must only be increased while `entries` is locked).
                 //              The refcount will only be decreased through the Guard, which means it will also only happen
                 //              while `entries` is locked and invariant 2C is fulfilled.
-                let mutex = PrimaryArc::clone(mutex);
+                //              If the stream is dropped before this entry was locked, the [PendingLock] fulfills invariant 2C.
+                let pending = PendingLock::new(this, key, PrimaryArc::clone(mutex).lock_owned());
                 async move {
                     #[cfg(feature = "verif_hooks")]
                     crate::verif::yield_point(crate::verif::Site::Key);
-                    let guard = mutex.lock_owned().await;
-                    let guard = Self::_make_guard(this, key, guard);
+                    let guard = pending.lock().await;
                     if guard.value().is_some() {
                         Some(guard)
                     } else {
@@ -597,6 +601,30 @@ where
             // With invariant 2C, we know that thread or task hasn't cleaned up yet but will wait for us to release the `entries`
             // lock and then eventually call [Self::_delete_if_unlocked_and_nobody_waiting_for_lock] again.
             // We can just exit and let them deal with it.
+        }
+    }
+
+    // Must be called after a [ReplicaArc] for the entry of `key` was dropped while `entries` was locked,
+    // with that same lock on `entries` still held. Cleans up the entry if it is `None` and nobody else has a [ReplicaArc] for it.
+    fn _delete_if_none_and_no_replicas(entries: &mut EntriesGuard<'_, K, V, C>, key: &K) {
+        // Using `peek` and not `get` because an abandoned attempt to lock the entry shouldn't count as a use of it.
+        let mutex: &Entry<C::WrappedV<V>> = entries
+            .peek(key)
+            .expect("We had a ReplicaArc for this entry until just now, so it must still exist");
+        // See [Self::_delete_if_unlocked_and_nobody_waiting_for_lock] for why there are no race conditions here.
+        if mutex.num_replicas() == 0 {
+            let Ok(guard) = PrimaryArc::clone(mutex).try_lock_owned() else {
+                panic!("We're the only one who has access to this mutex. Locking can't fail.");
+            };
+            let is_none = guard.value.is_none();
+            std::mem::drop(guard);
+            if is_none {
+                let remove_result = entries.remove(key);
+                assert!(
+                    remove_result.is_some(),
+                    "We just got this entry above from the hash map, it cannot have vanished since then"
+                );
+            }
         }
     }
 
@@ -692,6 +720,73 @@ where
             }
         }
         result
+    }
+}
+
+/// A [ReplicaArc] that is in the process of locking its mutex, i.e. the not yet completed future returned by [ReplicaArc::lock_owned].
+/// If this is dropped before the lock was acquired, e.g. because the task waiting for the lock got cancelled,
+/// it fulfills invariant 2C by taking the lock on `entries` before dropping the [ReplicaArc] and cleaning up a `None` entry afterwards.
+struct PendingLock<K, V, C, S, F>
+where
+    K: Eq + PartialEq + Hash + Clone,
+    C: LockableMapConfig + Clone,
+    S: Borrow<LockableMapImpl<K, V, C>> + Clone,
+    F: Future<Output = ReplicaOwnedMutexGuard<EntryValue<C::WrappedV<V>>>>,
+{
+    this: S,
+    key: K,
+    // Is always Some until the lock was acquired
+    future: Option<std::pin::Pin<Box<F>>>,
+    _v: PhantomData<V>,
+    _c: PhantomData<C>,
+}
+
+impl<K, V, C, S, F> PendingLock<K, V, C, S, F>
+where
+    K: Eq + PartialEq + Hash + Clone,
+    C: LockableMapConfig + Clone,
+    S: Borrow<LockableMapImpl<K, V, C>> + Clone,
+    F: Future<Output = ReplicaOwnedMutexGuard<EntryValue<C::WrappedV<V>>>>,
+{
+    fn new(this: S, key: K, future: F) -> Self {
+        Self {
+            this,
+            key,
+            future: Some(Box::pin(future)),
+            _v: PhantomData,
+            _c: PhantomData,
+        }
+    }
+
+    async fn lock(mut self) -> Guard<K, V, C, S> {
+        let guard = self
+            .future
+            .as_mut()
+            .expect("The self.future field must always be set until the lock was acquired")
+            .await;
+        // The lock is acquired, there's nothing left for [Drop] to clean up.
+        self.future = None;
+        // To fulfill invariant 2C, we immediately put the [ReplicaOwnedMutexGuard] into a [Guard] object.
+        LockableMapImpl::_make_guard(self.this.clone(), self.key.clone(), guard)
+    }
+}
+
+impl<K, V, C, S, F> Drop for PendingLock<K, V, C, S, F>
+where
+    K: Eq + PartialEq + Hash + Clone,
+    C: LockableMapConfig + Clone,
+    S: Borrow<LockableMapImpl<K, V, C>> + Clone,
+    F: Future<Output = ReplicaOwnedMutexGuard<EntryValue<C::WrappedV<V>>>>,
+{
+    fn drop(&mut self) {
+        if let Some(future) = self.future.take() {
+            // We're dropped without having acquired the lock. The future still owns the [ReplicaArc]
+            // (or, if the lock was already handed to it but it wasn't polled since, the locked mutex).
+            // Invariant 2C: lock `entries`, then drop it, then clean up if it was a `None` entry.
+            let mut entries = self.this.borrow()._entries();
+            std::mem::drop(future);
+            LockableMapImpl::_delete_if_none_and_no_replicas(&mut entries, &self.key);
+        }
     }
 }
 
